@@ -358,7 +358,7 @@ theorem decA_bound (env : Env) : ∀ f : Nat,
                   | error er =>
                     rw [(checkLength_err hc3).1]; exact AllocOK.of_err0 (p1.trans hl2.le)
                   | ok u =>
-                  obtain ⟨rfl, _, hn⟩ := checkLength_ok hc3
+                  obtain ⟨rfl, _, hn⟩ := checkLength_ok_inv hc3
                   simp only
                   obtain ⟨b1, b2⟩ := ihE e len.toNat [] r3
                   constructor
@@ -425,7 +425,7 @@ theorem decA_bound (env : Env) : ∀ f : Nat,
                                 rw [if_neg c5, hc5] at hg
                                 simp at hg
                             | ok u5 =>
-                              obtain ⟨_, _, hn⟩ := checkLength_ok hc5
+                              obtain ⟨_, _, hn⟩ := checkLength_ok_inv hc5
                               simp only
                               cases res4 with
                               | error er =>
@@ -521,7 +521,7 @@ theorem decA_bound (env : Env) : ∀ f : Nat,
                 | error er =>
                   rw [(checkLength_err hc3).1]; exact AllocOK.of_err0 (p1.trans hl2.le)
                 | ok u =>
-                obtain ⟨rfl, _, _⟩ := checkLength_ok hc3
+                obtain ⟨rfl, _, _⟩ := checkLength_ok_inv hc3
                 simp only
                 obtain ⟨b1, b2⟩ := ihP k v len [] r3
                 constructor
